@@ -61,6 +61,18 @@ func genTree(rng *rand.Rand) (*node, map[string]any) {
 	fill = func(n *node) {
 		// own defaults incl. (often) sections for the children: "the parent chart's section for a subchart"
 		n.Defaults = section(rng, n, rng.Intn(4) == 0, 60)
+		// lists of tables / lists of lists that no user value ever overrides (key "lt" is not in the
+		// shared alphabet): the rendered values must not share them with the chart's stored defaults
+		if rng.Intn(3) > 0 {
+			n.Defaults["lt"] = []any{
+				map[string]any{"name": n.Name + "-0", "ports": []any{float64(80), map[string]any{"p": float64(443)}}},
+				[]any{"in", []any{"deep", map[string]any{"k": n.Name}}},
+				"tail",
+			}
+			if rng.Intn(2) == 0 {
+				n.Defaults["mt"] = map[string]any{"inner": []any{map[string]any{"a": float64(1)}, []any{float64(2)}}}
+			}
+		}
 		for _, c := range n.Children {
 			fill(c)
 		}
@@ -69,6 +81,9 @@ func genTree(rng *rand.Rand) (*node, map[string]any) {
 	user := section(rng, root, true, 70)
 	if rng.Intn(12) == 0 {
 		user = map[string]any{}
+	}
+	if rng.Intn(2) == 0 {
+		user["ul"] = []any{map[string]any{"u": []any{"x", map[string]any{"y": float64(1)}}}, []any{"z"}} // caller-side list of tables
 	}
 	// aim explicit nulls at paths that do have a default (own values.yaml of some chart of the tree)
 	for k := rng.Intn(3); k > 0; k-- {
@@ -176,11 +191,15 @@ func poison(v any) {
 	case chartutil.Values:
 		poison(map[string]any(t))
 	case []any:
-		for _, x := range t {
-			poison(x)
-		}
-		if len(t) > 0 {
-			t[0] = "__poison"
+		// write through every element: tables inside lists, lists inside lists (any depth) get
+		// poisoned in place first, then the scalar slots of the list itself are overwritten
+		for i, x := range t {
+			switch x.(type) {
+			case map[string]any, []any, chartutil.Values:
+				poison(x)
+			default:
+				t[i] = "__poison"
+			}
 		}
 	}
 }
@@ -337,6 +356,7 @@ func runCharts(res *core.Result, d caseData, verbose bool) {
 			poison(got)
 			check("result aliases inputs (poison written through the result became visible)")
 			res.Stat("charts_aliasing_probes", int64(len(snaps)+1))
+			res.Stat("charts_default_lists_of_tables_probed", int64(countListTables(snaps)))
 		}
 		if sample == nil && st.nullDel > 0 && st.parentSection > 0 && len(root.Children) > 0 {
 			sample = map[string]any{"stratum": "charts", "tree": strings.Split(strings.TrimSpace(root.describe("")), "\n"), "user": ref.Canon(user), "expected_and_observed_render_values": exp}
@@ -360,6 +380,16 @@ func stripGlobal(n *node, scope any, res *core.Result) {
 	for _, c := range n.Children {
 		stripGlobal(c, m[c.Name], res)
 	}
+}
+
+func countListTables(snaps []snap) int {
+	n := 0
+	for _, s := range snaps {
+		if _, ok := s.ch.Values["lt"]; ok {
+			n++
+		}
+	}
+	return n
 }
 
 func asMap(v any) (map[string]any, bool) {
